@@ -15,7 +15,7 @@ FORBIDDEN = re.compile(r"\bsorry\b|\badmit\b|^\s*axiom\s|native_decide|bv_decide
 TRUSTED_BASE = [
     "Lean 4.33.0 kernel (thorough tier: re-checked with leanchecker)",
     "axioms allowed in property theorems: propext, Classical.choice, Quot.sound (audited by #print axioms on every run); no sorry/admit/native_decide/bv_decide/own axioms",
-    "tools/extract.py (syntactic translator of tables/field orders from /repo; fails closed)",
+    "tools/extract.py (syntactic translator of tables/field orders from /repo, cross-checked against / completed by `zkh dump`: the same tables as compiled from the current source, measured through public items, the evaluator and marker probes; fails closed)",
     "correspondence check: harness/ (Rust, links /repo in-process) vs lean/ZkModel driver on generated inputs; sampled",
     "specifications S as transcriptions of their documents (Poseidon paper + Grain script, FIPS-202/Keccak, circom docs, RLN-v2, repo doc comments)",
 ]
@@ -23,6 +23,14 @@ TRUSTED_BASE = [
 
 class Abort(Exception):
     pass
+
+
+# every child process (harness, per-configuration programs, the reference generator) gets a private scratch directory as TMPDIR:
+# the default tree configuration creates a sled database under temp_dir() per instance and leaves it behind when a process aborts
+import atexit, tempfile
+SCRATCH = tempfile.mkdtemp(prefix="zkverif-")
+os.environ["TMPDIR"] = SCRATCH
+atexit.register(lambda: shutil.rmtree(SCRATCH, ignore_errors=True))
 
 
 def sh(cmd, cwd=None, env=None, timeout=None, inp=None):
@@ -56,7 +64,12 @@ def claimed_properties():
 # ----------------------------------------------------------------------------- build steps
 
 def extract():
-    rc, out = sh([sys.executable, os.path.join(VERIF, "tools", "extract.py")], env={"ZK_REPO": REPO})
+    """both translators: the syntactic reading of /repo's source and the facts printed by the harness compiled from it
+    (`zkh dump`); building the harness first is what makes the second one speak about the current tree"""
+    cmd = [sys.executable, os.path.join(VERIF, "tools", "extract.py")]
+    zkh = build_harness()          # raises Abort when /repo does not compile
+    cmd += ["--probe", zkh]
+    rc, out = sh(cmd, env={"ZK_REPO": REPO})
     try:
         return json.loads(out.strip().splitlines()[-1])
     except Exception:
@@ -555,7 +568,11 @@ class Run:
 
 def setup():
     t0 = time.time()
-    print("[setup] translator", extract())
+    try:
+        print("[setup] translator", extract())
+    except Abort as e:
+        print(e)
+        return 1
     ok, out = lake_build([], timeout=6000)
     print(out[-1500:])
     if not ok:
